@@ -2,13 +2,14 @@
 scratch worktree with the patch applied (never /repo itself) and records which checks raise a VIOLATION in seeded/<id>/meta.json."""
 import json, os, subprocess, sys, tempfile, shutil
 ROOT = "/verif"
-EXTRA = {"C01": ["C02", "C06", "C11"], "C02": ["C01"], "C03": [], "C04": ["C18"], "C05": ["C06"], "C06": ["C05"], "C07": ["C02"], "C08": ["C03"],
-         "C09": ["C11"], "C11": ["C13", "C14"], "C13": [], "C14": ["C13"], "C15": ["C10"], "C16": [], "C18": ["C04"], "C19": ["C03"], "C20": ["C13", "C18"]}
+EXTRA = {"C02": ["C01"], "C04": ["C18"], "C06": ["C05"], "C07": ["C02"], "C11": ["C13"], "C14": ["C13"], "C20": ["C13", "C18"], "C08": ["C03"]}
 ids = sys.argv[1:] or sorted(os.listdir(f"{ROOT}/seeded"))
 for sid in ids:
     d = f"{ROOT}/seeded/{sid}"
     meta = json.load(open(f"{d}/meta.json"))
     pid = meta["property"]
+    if meta.get("caught_by") and not os.environ.get("SM_FORCE"):
+        print(sid, "already done"); continue
     wt = tempfile.mkdtemp(prefix="sm_", dir="/tmp")
     os.rmdir(wt)
     subprocess.run(["git", "-C", "/repo", "worktree", "add", "--detach", wt, "HEAD", "-q"], check=True)
